@@ -102,7 +102,7 @@ def loop_regs(row, v, ear_bit, carry):
     r[1] = carry
     r[2], r[3], r[4], r[5], r[6], r[7] = 0x40, 0xFE, 0x40, 0x40, 0x40, 0x40
     if ear >= 0:
-        r[ear] = (ear_bit * ear_mask) | (0x02 if ear == 3 else 0)
+        r[ear] = ear_bit * ear_mask         # nothing but the EAR bit: 'diver' does AND $40 before XOR C
     r[counter] = v
     r[8], r[9], r[10], r[11] = 0x91, 0x00, 0x5C, 0x3A
     r[12] = SP0
@@ -181,7 +181,7 @@ def describe(ref, got):
     return ', '.join(out)
 
 
-def loop_case(rig, row, stop, v, dist, ear_bit, pol, carry, acc_cache):
+def loop_case(rig, row, stop, v, dist, ear_bit, pol, carry, kinds=('py', 'c')):
     """Run one loop-level case four ways.  Returns (list of (sim, accel, description), info)."""
     from skoolkit.loadsample import Accelerator
     regs = loop_regs(row, v, ear_bit, carry)
@@ -189,26 +189,26 @@ def loop_case(rig, row, stop, v, dist, ear_bit, pol, carry, acc_cache):
     d0 = dist + 11
     blocks = [pulse_block([d0, FAR, FAR, FAR])]
     results = {}
-    for kind in ('py', 'c'):
+    for kind in kinds:
         for accel in (0, 1):
             if accel:
                 accs = {Accelerator(*row)}
             else:
                 accs = set()
             results[kind, accel] = (rig.run(kind, regs, blocks, lt_config(stop, accs, 0, pol)), accs)
-    ref = results['py', 0][0]
+    k0 = kinds[0]
+    ref = results[k0, 0][0]
     bad = []
     for (kind, accel), (res, accs) in results.items():
         if res != ref:
             bad.append((kind, accel, describe(ref, res)))
-    hits = sum(a.hits for a in results['py', 1][1])
-    info = {'stopped_at_stop': ref[0][24] == stop, 'hits': hits,
-            'accelerated': results['py', 1][0][0][25] == ref[0][25] and hits > 0, 'ref': ref}
+    hits = sum(a.hits for a in results[k0, 1][1])
+    info = {'hits': hits, 'ref': ref}
     return bad, info
 
 
-def loop_cases(tier):
-    """(row name, counter, distance, ear bit, tape polarity, carry) in a fixed order."""
+def loop_units(tier):
+    """(row name, distance, ear bit, tape polarity, carry) in a fixed order; one unit = all 256 counter values."""
     from skoolkit.loadsample import ACCELERATORS
     for name in sorted(ACCELERATORS):
         row = ACCELERATORS[name]
@@ -220,41 +220,155 @@ def loop_cases(tier):
                         yield name, dist, ear_bit, pol, carry
 
 
-def _loop_shard(stats, shard, nshards, tier):
+# A defect in the C simulator can be a memory-safety error that kills the process.  Loop-level work
+# therefore runs in a forked child that streams one Stats object per unit back to the shard worker;
+# if the child dies, the unit it was working on is re-run one counter value per child to name the
+# crashing inputs, and a new child continues with the next unit.
+def isolated(fn, *args):
+    """Run fn(*args) in a forked child.  Returns ('ok', result) or ('signal', n) / ('exit', n)."""
+    import pickle
+    r, w = os.pipe()
+    pid = os.fork()
+    if pid == 0:
+        code = 0
+        try:
+            os.close(r)
+            with os.fdopen(w, 'wb') as f:
+                pickle.dump(fn(*args), f)
+        except BaseException:
+            code = 3
+        finally:
+            os._exit(code)
+    os.close(w)
+    with os.fdopen(r, 'rb') as f:
+        data = f.read()
+    _, status = os.waitpid(pid, 0)
+    if os.WIFSIGNALED(status):
+        return 'signal', os.WTERMSIG(status)
+    if os.WEXITSTATUS(status) or not data:
+        return 'exit', os.WEXITSTATUS(status)
+    return 'ok', pickle.loads(data)
+
+
+def stream_units(units, fn):
+    """Yield (index, 'ok', result) / (index, 'signal', n) for every unit, computing in forked children."""
+    import pickle
+    start = 0
+    while start < len(units):
+        r, w = os.pipe()
+        pid = os.fork()
+        if pid == 0:
+            code = 0
+            try:
+                os.close(r)
+                with os.fdopen(w, 'wb') as f:
+                    for idx in range(start, len(units)):
+                        pickle.dump((idx, fn(units[idx])), f)
+                        f.flush()
+            except BaseException:
+                import traceback
+                traceback.print_exc(file=sys.__stderr__)
+                code = 3
+            finally:
+                os._exit(code)
+        os.close(w)
+        done = start
+        with os.fdopen(r, 'rb') as f:
+            while True:
+                try:
+                    idx, res = pickle.load(f)
+                except EOFError:
+                    break
+                yield idx, 'ok', res
+                done = idx + 1
+        _, status = os.waitpid(pid, 0)
+        if done >= len(units):
+            break
+        if os.WIFSIGNALED(status):
+            yield done, 'signal', os.WTERMSIG(status)
+        else:
+            yield done, 'exit', os.WEXITSTATUS(status)
+        start = done + 1
+
+
+_rigs = {}
+
+
+def _rig_for(name):
     from skoolkit.loadsample import ACCELERATORS
-    rigs = {}
-    for i, (name, dist, ear_bit, pol, carry) in core.shard_iter(loop_cases(tier), shard, nshards):
-        row = ACCELERATORS[name]
-        if name not in rigs:
-            rigs.clear()
-            mem, stop = loop_image(row)
-            rigs[name] = (Rig(mem), stop)
-        rig, stop = rigs[name]
-        accelerated = 0
+    if name not in _rigs:
+        _rigs.clear()
+        mem, stop = loop_image(ACCELERATORS[name])
+        _rigs[name] = (Rig(mem), stop)
+    return _rigs[name]
+
+
+def loop_violations(name, v, dist, ear_bit, pol, carry, kinds=('py', 'c')):
+    """One counter value: list of (sim, accel, description) plus info."""
+    from skoolkit.loadsample import ACCELERATORS
+    row = ACCELERATORS[name]
+    rig, stop = _rig_for(name)
+    bad, info = loop_case(rig, row, stop, v, dist, ear_bit, pol, carry, kinds)
+    ref = info['ref']
+    if ref[0][24] != stop:
+        bad = bad + [('py', 0, 'run did not reach the stop address within {} T-states (PC={})'.format(HORIZON_T, ref[0][24]))]
+    return bad, info
+
+
+def _record(stats, unit, v, kind, accel, desc, order):
+    name, dist, ear_bit, pol, carry = unit
+    stats.violation('loop/{}/counter={},dist={},ear={},pol={},cy={}/{}{}'.format(name, v, dist, ear_bit, pol, carry, kind, '+acc' if accel else ''),
+                    {'level': 'loop', 'acc': name, 'counter': v, 'dist': dist, 'ear': ear_bit, 'pol': pol, 'carry': carry},
+                    '{} simulator, accelerators={}: {}'.format('Python' if kind == 'py' else 'C', '{' + name + '}' if accel else '{}', desc),
+                    tags={'level': 'loop', 'acc': name, 'sim': kind, 'accelerated': accel, 'counter': v, 'dist': dist,
+                          'fields': sorted({x.split('=')[0] for x in desc.split(', ')}) if '=' in desc else ['crash']}, order=order)
+
+
+def loop_unit(arg):
+    """All 256 counter values of one unit -> a fresh Stats."""
+    from skoolkit.loadsample import ACCELERATORS
+    i, unit, kinds = arg
+    name, dist, ear_bit, pol, carry = unit
+    row = ACCELERATORS[name]
+    stats = core.Stats(PROPERTY)
+    fired = 0
+    for v in range(256):
+        bad, info = loop_violations(name, v, dist, ear_bit, pol, carry, kinds)
+        stats.evaluations += 1
+        stats.transitions += 2 * len(kinds)
+        stats.traces += 1
+        ref = info['ref']
+        stats.state((name, ref[0][24], ref[0][row[3]], ref[0][25] - 11, ref[1][1]))
+        if info['hits']:
+            stats.counters['acc_' + name] += 1
+            fired += 1
+        for kind, accel, desc in bad:
+            _record(stats, unit, v, kind, accel, desc, i * 256 + v)
+    if fired:
+        stats.nontriv(unit)
+    if i % 211 == 0:
+        stats.sample({'level': 'loop', 'accelerator': name, 'next_edge_distance': dist, 'ear_bit': ear_bit, 'tape_polarity': pol,
+                      'carry': carry, 'counters': '0..255', 'counter_values_with_signature_match': fired})
+    return stats
+
+
+def _loop_shard(stats, shard, nshards, tier):
+    units = [(i, u, ('py', 'c')) for i, u in core.shard_iter(loop_units(tier), shard, nshards)]
+    for idx, status, res in stream_units(units, loop_unit):
+        if status == 'ok':
+            stats.merge(res)
+            continue
+        # the child died inside units[idx]: find the counter values that kill it, keep the Python verdicts
+        i, unit, _ = units[idx]
+        stats.counters['c_simulator_crashes'] += 1
+        _rig_for(unit[0])           # built here so that the forked children inherit it
+        st2, py = isolated(loop_unit, (i, unit, ('py',)))
+        if st2 == 'ok':
+            stats.merge(py)
         for v in range(256):
-            bad, info = loop_case(rig, row, stop, v, dist, ear_bit, pol, carry, None)
-            stats.evaluations += 1
-            stats.transitions += 4
-            stats.traces += 1
-            ref = info['ref']
-            stats.state((name, ref[0][24], ref[0][row[3]], ref[0][25] - 11, ref[1][1]))
-            if not info['stopped_at_stop']:
-                stats.counters['loop_horizon_reached'] += 1
-                bad = bad + [('py', 0, 'run did not reach the stop address within {} T-states (PC={})'.format(HORIZON_T, ref[0][24]))]
-            if info['hits']:
-                stats.counters['acc_' + name] += 1
-                accelerated += 1
-            for kind, accel, desc in bad:
-                stats.violation('loop/{}/counter={},dist={},ear={},pol={},cy={}/{}{}'.format(name, v, dist, ear_bit, pol, carry, kind, '+acc' if accel else ''),
-                                {'level': 'loop', 'acc': name, 'counter': v, 'dist': dist, 'ear': ear_bit, 'pol': pol, 'carry': carry},
-                                '{} simulator, accelerators={}: {}'.format('Python' if kind == 'py' else 'C', '{' + name + '}' if accel else '{}', desc),
-                                tags={'level': 'loop', 'acc': name, 'sim': kind, 'accelerated': accel, 'counter': v, 'dist': dist,
-                                      'fields': sorted({x.split('=')[0] for x in desc.split(', ')})}, order=i * 256 + v)
-        if accelerated:
-            stats.nontriv((name, dist, ear_bit, pol, carry))
-        if i % 211 == 0:
-            stats.sample({'level': 'loop', 'accelerator': name, 'next_edge_distance': dist, 'ear_bit': ear_bit, 'tape_polarity': pol,
-                          'carry': carry, 'counters': '0..255', 'counter_values_with_accelerator_hit': accelerated})
+            st3, r3 = isolated(loop_violations, unit[0], v, unit[1], unit[2], unit[3], unit[4], ('c',))
+            if st3 != 'ok':
+                _record(stats, unit, v, 'c', 1, 'process killed by {} {} while running the C simulator'.format(st3, r3), i * 256 + v)
 
 
 # --------------------------------------------------------------------------- DEC A loops
@@ -648,14 +762,20 @@ def replay(case):
     old = sys.stdout
     if case['level'] == 'loop':
         from skoolkit.loadsample import ACCELERATORS
-        row = ACCELERATORS[case['acc']]
-        mem, stop = loop_image(row)
+        out = []
         sys.stdout = _Null()
         try:
-            bad, info = loop_case(Rig(mem), row, stop, case['counter'], case['dist'], case['ear'], case['pol'], case['carry'], None)
+            for kinds in (('py', 'c'), ('py',), ('c',)):
+                st, res = isolated(loop_violations, case['acc'], case['counter'], case['dist'], case['ear'], case['pol'], case['carry'], kinds)
+                if st == 'ok':
+                    out += ['{} accel={}: {}'.format(k, a, d) for k, a, d in res[0]]
+                    if len(kinds) == 2:
+                        break
+                elif len(kinds) == 1:
+                    out.append('{} accel=1: process killed by {} {} while running the C simulator'.format(kinds[0], st, res))
         finally:
             sys.stdout = old
-        return ['{} accel={}: {}'.format(k, a, d) for k, a, d in bad]
+        return out
     if case['level'] == 'dec-a':
         mem, stop = dec_a_image(case['form'])
         sys.stdout = _Null()
